@@ -504,3 +504,10 @@ def scan_literal_call_sites(loader: Any) -> List[Dict[str, Any]]:
 
 
 UNITS.append(Scan("literal-call-sites", ["C19"], scan_literal_call_sites))
+
+UNITS.append(Native(
+    "all eight targets give the same output under different hash seeds", ["C22"], "native.c22:all_targets", kind="bounded",
+    bound="two meta-models with inheritance, enumerations, constrained primitives, patterns, constant sets and invariants "
+          "(the second one without the C++ and Java targets, which do not support its list of primitives) x 8 targets "
+          "x PYTHONHASHSEED in {0, 1, 12345}: exit status, stdout, stderr and every output file compared",
+    args={}, timeout_s=1500))
